@@ -12,6 +12,7 @@ META = {
             'bodies calling other functions, overflowing conversions, recursion, undefined functions) are validated boundary by boundary: every variable is compared after every statement.',
     'note': 'Trusted: TLC, hook H1, the program renderer. Numeric functions/parameters only (string parameters are exercised under memory pressure by C10); wrong argument counts are outside the fragment.',
 }
+META['text'] += ' String parameters are covered by running a share of the string-space histories of C10 (DEF FN with string parameters under garbage collection) judged by StringSpace_Trace.tla.'
 META['text'] += " Interp.tla models DEFINT/DEFSNG (a name without type sign is resolved when it is used); a family changes the type of the parameter's name between DEF FN and the call (argument converting or overflowing, parameter variable existing or not), and random programs mix DEFINT/DEFSNG statements with bare parameter names."
 
 
@@ -20,3 +21,10 @@ def run(ctx):
     interp_check.run_model_families(ctx, ['fn', 'fndt'])
     interp_check.run_family(ctx, {'ctl', 'fn', 'err'}, ctx.pick(220, 5000), size=10,
                             focus={'simple': 45, 'for': 8, 'gosub': 6, 'err': 6, 'if': 10})
+    # string parameters: Interp.tla has numeric variables only; DEF FN with string parameters (FNA$(P$), FNB$(P$,Q$), identity and
+    # concatenating bodies) is part of the statement pool of the string-space histories of C10, where a garbage collection can fall
+    # inside a function body. A share of those histories is run here and judged by StringSpace_Trace.tla: the caller's string
+    # variables must read the reference values after every call (round-3 seeded change C20c left the caller's variable detached
+    # after a collection inside the body).
+    from . import C10
+    C10.code_to_spec(ctx, nhist=ctx.pick(24, 120))
